@@ -9,7 +9,7 @@ VERIF = os.path.dirname(os.path.dirname(os.path.abspath(__file__)))
 CLAIMED = {
     # id: (technique, level text, level note, design ref)
     "C03": ("lock-held-set and guarded-field census over the AST; CFG dominance for row locks",
-            "Every access to mutable shared storage state is inside its lock (lexically or in a helper all of whose call sites hold it); journal append+replay+read are one region; RDB session use is inside one transaction region and the three compare-and-set sites take a row lock first; non-reentrant locks are not re-acquired. Exhaustive over all methods of the storage classes. Decides the locking discipline - a necessary condition of linearizability that no test can see - not linearizability itself.",
+            "Every access to mutable shared storage state is inside its lock (lexically or in a helper all of whose call sites hold it); journal append+replay+read are one region; RDB session use is inside one transaction region and the three compare-and-set sites take a row lock first; non-reentrant locks are not re-acquired. Exhaustive over all methods of the storage classes. Every public method touches shared state in one critical section; journal mutators decide on replay, never on a pre-check before the append; uniqueness the contract promises is a schema constraint. Decides the locking discipline - a necessary condition of linearizability that no test can see - not linearizability itself.",
             "Trusts threading locks, SQLAlchemy with_for_update and the AST-based receiver resolution (self.<field> only, one alias level).",
             "DESIGN.md §3 C03"),
     "C05": ("ordered must-pass-through (reachability on a CFG with exceptional edges and duplicated finally suites); who-may-open census with positive fixture",
@@ -17,44 +17,44 @@ CLAIMED = {
             "Trusts os.fsync, SQLAlchemy commit/rollback atomicity; exception edges: every call may raise.",
             "DESIGN.md §3 C05"),
     "C07": ("held-region census, CFG dominance over branch edges (per loop iteration), exclusive-create constant folding, sibling fact tables",
-            "Every journal write is under the inter-process file lock, acquire() can report success only after os.symlink / os.open(O_CREAT|O_EXCL) succeeded, release renames to a unique name then unlinks and is reached on all exits, the reader accepts a line only under the newline / size-snapshot / no-pending-error guards, and offset-cache entries are derived and dropped consistently. Exhaustive over paths of _file.py. Decides these necessary clauses, not file-system atomicity or take-over races.",
+            "Every journal write is under the inter-process file lock, acquire() can report success only after os.symlink / os.open(O_CREAT|O_EXCL) succeeded, release renames to a unique name then unlinks and is reached on all exits, the reader accepts a line only under the newline / size-snapshot / no-pending-error guards, and offset-cache entries are derived and dropped consistently. Exhaustive over paths of _file.py. A waiter removes a stale lock only after it watched the same lock unchanged for a full grace period on its own monotonic clock (restart on mtime change, stat every iteration); a cached offset always belongs to a line seen complete. Known finding (both lock classes): the stale lock is removed by path, so a second waiter can delete the first waiter's fresh lock. Decides these necessary clauses, not file-system atomicity or take-over races.",
             "Trusts EEXIST semantics of symlink/O_EXCL and atomic rename.",
             "DESIGN.md §3 C07"),
     "C20": ("freshness typestate as a forward dataflow on the CFG (SHARED/SHALLOW/CLEAN per local and attribute path, publish transitions), function specialisation for deepcopy=True/False with callee summaries",
-            "Storages replace trial objects instead of mutating them, get_all_trials honours deepcopy=True and returns a fresh list for deepcopy=False in all five backends, Study getters return deep copies, and no client code mutates a reference obtained from a storage getter without a deep copy (locals flow-sensitively, self fields class-wide). Exhaustive over every mutation site of the scoped packages. Decides absence of in-place mutation of reader-visible objects; not user code mutating deepcopy=False results.",
+            "Storages replace trial objects instead of mutating them, get_all_trials honours deepcopy=True and returns a fresh list for deepcopy=False in all five backends, Study getters return deep copies, and no client code mutates a reference obtained from a storage getter without a deep copy (locals flow-sensitively, self fields class-wide). Exhaustive over every mutation site of the scoped packages. Study attribute dicts handed out by reference are replaced on write, never mutated in place. Decides absence of in-place mutation of reader-visible objects; not user code mutating deepcopy=False results.",
             "Trusts copy.copy/deepcopy semantics; unknown call results are treated as private; storage receivers recognised by name (storage/_storage/_backend).",
             "DESIGN.md §3 C20"),
     "C08": ("value provenance through loops, helper parameters and call sites; per-branch must-pass-through on the CFG; comparison-shape sibling table; who-may-write census",
-            "The watermark is only ever advanced to max(old, id of a trial returned by the incremental fetch issued with the entry's current watermark and unfinished set); both outcomes of is_finished() are handled; only finished trials are served from cache; get_all_trials syncs before serving and sorts by number; RDB SQL, RDB fallback and gRPC servicer filters use the same accepted comparison shapes; delete invalidates. Exhaustive over all writers of the watermark/unfinished set in both caches. Decides preservation of the cache invariant by every writer, not inter-client staleness windows.",
+            "The watermark is only ever advanced to max(old, id of a trial returned by the incremental fetch issued with the entry's current watermark and unfinished set); both outcomes of is_finished() are handled; only finished trials are served from cache; get_all_trials syncs before serving and sorts by number; RDB SQL, RDB fallback and gRPC servicer filters use the same accepted comparison shapes; delete invalidates. Exhaustive over all writers of the watermark/unfinished set in both caches. A study the gRPC server reports as missing loses its client cache entry before the KeyError leaves. Decides preservation of the cache invariant by every writer, not inter-client staleness windows.",
             "Trusts that the backend fetch returns all trials matching the predicate; provenance depth 3.",
             "DESIGN.md §3 C08"),
     "C06": ("non-interference analysis: exclusive-region reachability at issuer tests on the CFG, boolean-helper outcome summaries, local taint from worker-local/ambient sources, per-iteration dominance, who-may-call/who-may-write censuses",
-            "Replicated fields of the replay result are never written on only one side of an issuer test nor from worker-local/ambient values; explicit raises are issuer-only and happen before any replicated write; the cursor is advanced before dispatch and loop locals do not cross records; snapshots pickle exactly the replay result and restore resets every worker-local field; records are applied only from what was read back. Exhaustive over all ten handlers and helpers. Decides that replayed state is a function of the record sequence alone (who applies, batching, snapshot start); not that backends deliver the same sequence.",
+            "Replicated fields of the replay result are never written on only one side of an issuer test nor from worker-local/ambient values; explicit raises are issuer-only and happen before any replicated write; the cursor is advanced before dispatch and loop locals do not cross records; snapshots pickle exactly the replay result and restore resets every worker-local field; records are applied only from what was read back. Exhaustive over all ten handlers and helpers. A handler path that applies nothing passes an issuer test (silent drops are rejections); the Redis backend hands out a gap-free run of records starting at the requested number. Decides that replayed state is a function of the record sequence alone (who applies, batching, snapshot start); not that backends deliver the same sequence.",
             "Trusts dict insertion order and that decoding helpers are total on repo-written records; the worker-local field table is frozen in rules/c06.py.",
             "DESIGN.md §3 C06"),
     "C04": ("finite-domain exploration of the compare-and-set guard over TrialState x TrialState on each backend's CFG; branch-edge dominance for claim-result use and suggest priority; zero-count who-may-call rule with fixture",
-            "WAITING->RUNNING is a compare-and-set in in-memory, RDB and journal (all 25 requested/stored state pairs explored per backend: the state write is unreachable for finished trials and for RUNNING requests on non-WAITING trials, losers get False), the only claimer branches on the result before the id escapes, nothing re-queues by writing WAITING, the in-memory WAITING cursor only moves to the first WAITING trial found, journal ownership is written only by the issuer on the successful transition, and _suggest gives fixed parameters priority and passes them verbatim. Decides presence of these mechanisms on all paths, not starvation freedom.",
+            "WAITING->RUNNING is a compare-and-set in in-memory, RDB and journal (all 25 requested/stored state pairs explored per backend: the state write is unreachable for finished trials and for RUNNING requests on non-WAITING trials, losers get False), the only claimer branches on the result before the id escapes, nothing re-queues by writing WAITING, the in-memory WAITING cursor only moves to the first WAITING trial found, journal ownership is written only by the issuer on the successful transition, and _suggest gives fixed parameters priority and passes them verbatim. The in-memory guard and publication lie in one critical section; the journal worker id covers storage object, process (fork) and thread; a retry re-queues the failed trial with its system attrs (fixed_params) untouched. Known finding: on SQLite the RDB compare-and-set is not enforced (FOR UPDATE ignored, UPDATE without state condition). Decides presence of these mechanisms on all paths, not starvation freedom.",
             "Trial existence is assumed when its state is tested; helper models (check_trial_is_updatable raises iff finished) are themselves checked (R19.3).",
             "DESIGN.md §3 C04"),
     "C19": ("branch-edge dominance per loop iteration on the CFG (append only after truthy CAS), exception-edge routing to handler arms, finite-domain CAS exploration, keyword provenance",
-            "fail_stale_trials runs the failure callback only for ids whose set_trial_state_values(id, FAIL) returned True, tolerates UpdateFinishedTrialError, hands over a deep copy; the CAS (row lock, finished guard, write) exists on every heartbeat-capable storage; the stale query only returns RUNNING trials of the study with a heartbeat strictly older than the grace period; the retry callback appends history before the max_retry test and rebuilds the trial unchanged; optimize sweeps before ask. Decides the at-most-once mechanism on all paths; not DB-clock behaviour or crashes between CAS and callback.",
+            "fail_stale_trials runs the failure callback only for ids whose set_trial_state_values(id, FAIL) returned True, tolerates UpdateFinishedTrialError, hands over a deep copy; the CAS (row lock, finished guard, write) exists on every heartbeat-capable storage; the stale query only returns RUNNING trials of the study with a heartbeat strictly older than the grace period; the retry callback appends history before the max_retry test and rebuilds the trial unchanged; optimize sweeps before ask. Known finding: on SQLite two sweepers can both win the RUNNING->FAIL compare-and-set (same root cause as C04). Decides the at-most-once mechanism on all paths; not DB-clock behaviour or crashes between CAS and callback.",
             "Trusts SQL row locks and that finished trials raise UpdateFinishedTrialError (checked in R19.3 for the base guard).",
             "DESIGN.md §3 C19"),
     "C16": ("guard-dominance on the CFG (pass edge of a gate test dominates every non-False return), comparison-polarity normal form, backward-slice census for bracket purity",
-            "For every protective constructor parameter of every built-in pruner (10 class/field pairs) every return of prune() that is not the constant False is dominated by the pass edge of a gate reading that parameter whose other edge returns False, with the comparison pointing the protecting way; NopPruner only returns False; ThresholdPruner prunes exactly under NaN/<lower/>upper; Hyperband returns False while uninitialised, delegates to SuccessiveHalving pruners built from its own parameters and its bracket id reads only study name, trial number and configuration. Decides that gates cannot be bypassed on any path; not the numeric 'strictly better is never pruned' clause.",
+            "For every protective constructor parameter of every built-in pruner (10 class/field pairs) every return of prune() that is not the constant False is dominated by the pass edge of a gate reading that parameter whose other edge returns False, with the comparison pointing the protecting way; NopPruner only returns False; ThresholdPruner prunes exactly under NaN/<lower/>upper; Hyperband returns False while uninitialised, delegates to SuccessiveHalving pruners built from its own parameters and its bracket id reads only study name, trial number and configuration. The start-up gate counts COMPLETE trials and the warm-up gate measures the trial's last step. Decides that gates cannot be bypassed on any path; not the numeric 'strictly better is never pruned' clause.",
             "Protective-parameter table confirmed by reading the pruner docs; _is_first_in_interval_step's arithmetic is not decided.",
             "DESIGN.md §3 C16"),
     "C12": ("sibling table of the five best-trial implementations; direction-duality matching; branch-edge dominance; finite-domain exploration (state=COMPLETE) for cache maintenance",
-            "All five best-trial implementations restrict candidates to COMPLETE trials, select max / replace-when-larger / desc / find_max under MAXIMIZE with mirror-image MINIMIZE arms, the SQL siblings rank INF_NEG < FINITE < INF_POS over exactly the enum's members as primary key, the in-memory cache is updated after publication on every path on which a trial becomes COMPLETE, errors mirror the base class, the constraint fallback and the Pareto front filter COMPLETE/feasible trials. Decides agreement of eligibility, orientation and infinity ranking across backends; not the vectorised Pareto arithmetic or SQL NaN handling.",
+            "All five best-trial implementations restrict candidates to COMPLETE trials, select max / replace-when-larger / desc / find_max under MAXIMIZE with mirror-image MINIMIZE arms, the SQL siblings rank INF_NEG < FINITE < INF_POS over exactly the enum's members as primary key, the in-memory cache is updated after publication on every path on which a trial becomes COMPLETE, errors mirror the base class, the constraint fallback and the Pareto front filter COMPLETE/feasible trials. The in-memory cache update runs in the critical section that publishes the trial; best_trials applies the feasibility filter iff any trial of the study has recorded constraints. Decides agreement of eligibility, orientation and infinity ranking across backends; not the vectorised Pareto arithmetic or SQL NaN handling.",
             "Trusts SQLAlchemy case()/order_by semantics and Python max/min.",
             "DESIGN.md §3 C12"),
     "C13": ("census of all StudyDirection comparison sites with idiom classification; structural arm matching under the direction involution (sa/dual.py); module-closure coverage of consumers",
-            "Every StudyDirection comparison in samplers, pruners, storages and study (24 sites, per-package floors) is a branch that fits one of the repository's idioms and is locally dual: two-armed sites and sibling callees match structurally with every order-sensitive token (comparison, min/max family, sort order, alternative, mirrored index, tolerance shift, sign) opposite between the arms; sign ternaries are negations and are multiplied in; one-armed sites are negations/mirrors; every order-sensitive pruner and value-reading sampler reaches a direction site. Decides that no site compares the wrong way or forgets its mirror; not run-level equality (numerics) nor tie strictness.",
+            "Every StudyDirection comparison in samplers, pruners, storages and study (24 sites, per-package floors) is a branch that fits one of the repository's idioms and is locally dual: two-armed sites and sibling callees match structurally with every order-sensitive token (comparison, min/max family, sort order, alternative, mirrored index, tolerance shift, sign) opposite between the arms; sign ternaries are negations and are multiplied in; one-armed sites are negations/mirrors; every order-sensitive pruner and value-reading sampler reaches a direction site. No second direction handling after normalisation; in pruners every value-vs-value order comparison, extremum selector and sign-of-infinity predicate sits inside a direction site; every function ordering raw trial values is direction-aware or tabled as direction-free (17 functions). Decides that no site compares the wrong way or forgets its mirror; not run-level equality (numerics) nor tie strictness.",
             "Sites outside the anchors (terminator, importance, visualization) are census-only; unknown idioms give exit 2.",
             "DESIGN.md §3 C13"),
     "C09": ("taint of storage ids by syntactic consumer (allowed sinks = id argument of storage methods), ambient-source census with tabled seeding idioms, rng-argument provenance through call sites, positive fixtures",
-            "In samplers, pruners, search-space, GP and multi-objective code every read of _trial_id/_study_id (35 sites) only flows into the id argument of a storage method (one finding: BaseGASampler.get_parent_population, listed as known); no module-level/unseeded randomness or ambient source is called outside two tabled seeding idioms; every function with an unseeded RandomState fallback is called with an rng derived from self._rng.rng; every sampler builds its RandomState from the seed argument; copy_study forwards every component. Decides these two confinement clauses (necessary for storage-independent reproducibility), not equality of whole runs.",
-            "Ids are only reachable through the attributes _trial_id/_study_id; provenance depth 4; set-iteration order effects are not decided (needs types).",
+            "In samplers, pruners, search-space, GP and multi-objective code every read of _trial_id/_study_id (35 sites) only flows into the id argument of a storage method (one finding: BaseGASampler.get_parent_population, listed as known); no module-level/unseeded randomness or ambient source is called outside two tabled seeding idioms; every function with an unseeded RandomState fallback is called with an rng derived from self._rng.rng; every sampler builds its RandomState from the seed argument; copy_study forwards every component. Hash order: no iteration over set-typed locals, group sub-spaces only through sorted()/len()/membership; no selection from intermediate_values by dict position; no identity comparison of values. Decides these two confinement clauses (necessary for storage-independent reproducibility), not equality of whole runs.",
+            "Ids are only reachable through the attributes _trial_id/_study_id; provenance depth 4; set-typed values are recognised syntactically (literals, set()/frozenset() calls, comprehensions).",
             "DESIGN.md §3 C09"),
     "C10": ("branch-edge dominance on Trial._suggest's CFG, single-definition value provenance (stored = returned = cached), path-condition agreement of log/exp sites, must-dataflow 'bounded' over the untransform, dispatch exhaustiveness",
             "A parameter already suggested is reused before any sampling branch; fixed -> single -> relative -> independent; the returned local is what is stored (via to_internal_repr) and cached, with the store dominating cache update and return; suggest_int wraps in int and the front-ends build the distribution from their arguments; relative values are used only if contained; math.log/math.exp are applied under identical predicates and every non-single untransform branch reachable with transform_log=True is clip/min-bounded; isinstance dispatches are exhaustive. Decides the suggest protocol; does NOT decide that each sampler's independent sample lies in [low, high] / on the grid (numerical).",
@@ -65,7 +65,7 @@ CLAIMED = {
             "Raise model and total-by-assumption operations are listed in evidence; storage calls are assumed not to raise; a trial found not RUNNING after ask() is assumed already finished.",
             "DESIGN.md §3 C02"),
     "C01": ("sibling/interface tables over the five backends, guard dominance on CFGs, finite-domain CAS and timestamp exploration, must/may key-set dataflow for journal records, container-insert/remove census, docstring-vs-handler status-code tables, proto container taint with sanitisers",
-            "Each backend carries the mechanisms the documented contract names, on every path, and writer/reader pairs agree: all 18 abstract methods with the base signature in 5 backends; the finished-trial guard dominates every trial write (15 writers) and wrappers delegate purely; WAITING->RUNNING compare-and-set (25 state pairs x 3 backends); every container a create path inserts into is cleaned on delete or its readers are gated, 10 SQL child models cascade; all 9 template fields are read by every writer and all constructor parameters rebuilt by every reader; 10 journal op-codes have one producer and one arm with agreeing must/may key sets; 19 RPCs map the documented exceptions to status codes and back; protobuf containers never reach backend arguments raw; trial-number allocation; timestamps per requested state; distribution JSON key agreement. Decides structural conformance, not equality of return values across backends for arbitrary histories nor NaN/inf fidelity of encodings.",
+            "Each backend carries the mechanisms the documented contract names, on every path, and writer/reader pairs agree: all 18 abstract methods with the base signature in 5 backends; the finished-trial guard dominates every trial write (15 writers) and wrappers delegate purely; WAITING->RUNNING compare-and-set (25 state pairs x 3 backends); every container a create path inserts into is cleaned on delete or its readers are gated, 10 SQL child models cascade; all 9 template fields are read by every writer and all constructor parameters rebuilt by every reader; 10 journal op-codes have one producer and one arm with agreeing must/may key sets; 19 RPCs map the documented exceptions to status codes and back; protobuf containers never reach backend arguments raw; trial-number allocation; timestamps per requested state; distribution JSON key agreement. RDB upserts write the same value columns in the insert and the update arm; the journal compatibility check runs on every param-write path; a state-only update keeps the stored values. Decides structural conformance, not equality of return values across backends for arbitrary histories nor NaN/inf fidelity of encodings.",
             "BaseStorage docstrings are the documented contract; api.proto parsed by a small regex parser; SQLAlchemy cascade semantics trusted.",
             "DESIGN.md §3 C01"),
 }
@@ -123,7 +123,7 @@ def main():
         }],
         "checks": checks,
         "not_applicable": na,
-        "notes": "All checks are static (no optuna code is imported or run). Exit 0 held / only KNOWN-FINDING lines; 1 VIOLATION; 2 ANALYSIS-ERROR (vanished anchor, floor not met). Known findings: /verif/known_findings.txt. Self-validation: ./check --selftest.",
+        "notes": "All checks are static (no optuna code is imported or run). Before any rule runs the loader normalises every module (alpha-renaming of recognised function locals to the reference names in sa/localnames.json, canonical comparison orientation, negated if/else, augmented assignment, nested ifs, temp-returns): DESIGN.md 1.4. False-alarm corpus: neutral/ (40 independent refactorings, tools/run_neutral.py) and tools/metamorph.py (8 whole-tree rewrites). Seeded changes: seeded/ (tools/run_seeded.py). Exit 0 held / only KNOWN-FINDING lines; 1 VIOLATION; 2 ANALYSIS-ERROR (vanished anchor, floor not met). Known findings: /verif/known_findings.txt. Self-validation: ./check --selftest.",
     }
     with open(os.path.join(VERIF, "MANIFEST.json"), "w") as f:
         json.dump(man, f, indent=1)
